@@ -22,6 +22,7 @@ package executors_test
 import (
 	"bytes"
 	"fmt"
+	"math"
 	"os"
 	"runtime"
 	"sort"
@@ -78,6 +79,37 @@ type c16Case struct {
 	// then judged by the documented defaults (bulk 1000 tasks, chunk 1 MB, interval 1 s).
 	NoMax bool `json:"nomax,omitempty"`
 	NoIv  bool `json:"noiv,omitempty"`
+	// IvNs: flush interval in nanoseconds (overrides IvUs/IvMs): 1 ns, 1 min, 1 h, 30 days and the
+	// "never ticks" values 100 years and MaxInt64 (see never()).
+	IvNs int64 `json:"ivns,omitempty"`
+	// Loop > 1: the event list is run Loop times in a row on the same executor (long-lived instance).
+	Loop int `json:"loop,omitempty"`
+	// Poly: tasks are values of many dynamic types (int, string, pointer, slice, map, func,
+	// Stringer); NilAt-1 is the index (into the expanded event list) of the one add whose task is
+	// nil (NilTyped: a typed nil pointer).
+	Poly     bool `json:"poly,omitempty"`
+	NilAt    int  `json:"nilat,omitempty"`
+	NilTyped bool `json:"niltyped,omitempty"`
+	// Re: the callbacks with these indexes (order of start) add one more task to the same executor
+	// from inside the callback. Only honoured for configurations that cannot reach a threshold
+	// (a threshold-reaching Add from the flusher's own callback waits for the flusher itself;
+	// not generated).
+	Re []int `json:"re,omitempty"`
+	// PanicAt-1: index of the callback that panics (after it has recorded the batch) - only if it
+	// runs in a goroutine of the harness, i.e. inside Flush/Wait, where the panic reaches the
+	// caller; a panic inside the background flusher kills the flusher (outside the statement).
+	PanicAt   int `json:"panicat,omitempty"`
+	PanicKind int `json:"pkind,omitempty"` // 0 error, 1 string, 2 int
+	// DupOpt: every option that is passed is passed twice, first with a decoy value (options are
+	// applied in order, the last one counts).
+	DupOpt bool `json:"dupopt,omitempty"`
+}
+
+// c16SharedOpts: option slices reused, as the same slice value, by several executors of one case.
+type c16SharedOpts struct {
+	mu    sync.Mutex
+	bulk  []executors.BulkOption
+	chunk []executors.ChunkOption
 }
 
 // documented defaults: lib/executors defaultBulkTasks, defaultChunkSize, defaultFlushInterval
@@ -99,7 +131,7 @@ func (c c16Case) effective() c16Case {
 		}
 	}
 	if c.NoIv && c.Kind != "periodical" {
-		c.IvMs, c.IvUs = c16DefaultIvMs, 0
+		c.IvMs, c.IvUs, c.IvNs = c16DefaultIvMs, 0, 0
 	}
 	var ev []c16Ev
 	for _, e := range c.Ev {
@@ -113,8 +145,110 @@ func (c c16Case) effective() c16Case {
 			e.Gap, e.Y = 0, 0
 		}
 	}
+	if c.Loop > 1 {
+		one := ev
+		ev = make([]c16Ev, 0, len(one)*c.Loop)
+		for l := 0; l < c.Loop; l++ {
+			ev = append(ev, one...)
+		}
+	}
+	c.Loop = 0
 	c.Ev = ev
 	return c
+}
+
+// never: the interval is so long (> 31 days; generated: 100 years, MaxInt64 ns) that no tick
+// can fall into a case. Schedules then use a fixed unit of one second, the tick-only quiesce
+// and the retirement of the flusher (it needs more than 10 intervals) are not judged.
+func (c c16Case) never() bool { return c.interval() > 31*24*time.Hour }
+
+// canReenter: no Add can reach a threshold, so an Add from inside a callback never has to
+// wait for the flusher.
+func (c c16Case) canReenter() bool {
+	if c.never() || len(c.Re) == 0 {
+		return false
+	}
+	adds := len(c.Re)
+	for _, e := range c.Ev {
+		if e.K == "add" {
+			adds++
+		}
+	}
+	switch c.Kind {
+	case "periodical":
+		return c.Max == 0
+	case "bulk":
+		return c.Max > adds
+	}
+	return false
+}
+
+func (c c16Case) size(id int) int {
+	if id >= 0 && id < len(c.Ev) {
+		return c.Ev[id].S
+	}
+	return 0
+}
+
+// ---- tasks as values of many dynamic types
+
+type c16T struct{ id int }
+type c16Str struct{ id int }
+
+func (t c16Str) String() string { return "task-" + strconv.Itoa(t.id) }
+
+func (c c16Case) encode(id int) any {
+	if !c.Poly {
+		return id
+	}
+	if id == c.NilAt-1 {
+		if c.NilTyped {
+			return (*c16T)(nil)
+		}
+		return nil
+	}
+	switch id % 7 {
+	case 0:
+		return id
+	case 1:
+		return "t" + strconv.Itoa(id)
+	case 2:
+		return &c16T{id}
+	case 3:
+		return []int{id} // not comparable
+	case 4:
+		return map[string]int{"id": id} // not comparable
+	case 5:
+		return c16Str{id}
+	default:
+		return func() int { return id } // not comparable
+	}
+}
+
+func (c c16Case) decode(v any) int {
+	switch t := v.(type) {
+	case nil:
+		return c.NilAt - 1
+	case int:
+		return t
+	case string:
+		n, _ := strconv.Atoi(t[1:])
+		return n
+	case *c16T:
+		if t == nil {
+			return c.NilAt - 1
+		}
+		return t.id
+	case []int:
+		return t[0]
+	case map[string]int:
+		return t["id"]
+	case c16Str:
+		return t.id
+	case func() int:
+		return t()
+	}
+	return -1000
 }
 
 // c16IDs prints long batches abbreviated.
@@ -128,6 +262,9 @@ func (ids c16IDs) String() string {
 }
 
 func (c c16Case) interval() time.Duration {
+	if c.IvNs > 0 {
+		return time.Duration(c.IvNs)
+	}
 	if c.IvUs > 0 {
 		return time.Duration(c.IvUs) * time.Microsecond
 	}
@@ -137,7 +274,24 @@ func (c c16Case) interval() time.Duration {
 // c16Intervals: the interval domain in microseconds.
 var c16Intervals = []int{1, 7, 250, 999, 1000, 1500, 10_000, 33_300, 50_000, 250_000, 1_000_000, 10_000_000}
 
-func (c c16Case) unit() time.Duration { return c.interval() / 2 }
+func (c c16Case) unit() time.Duration {
+	switch i := c.interval(); {
+	case c.never():
+		return time.Second
+	case i < 2:
+		return i
+	default:
+		return i / 2
+	}
+}
+
+// idle: the idle period after which the flusher must have retired.
+func (c c16Case) idle() time.Duration {
+	if c.never() {
+		return 12*time.Second + time.Second/2
+	}
+	return c16IdleRounds*c.interval() + c.unit()
+}
 func (c c16Case) maxLat() int {
 	m := 0
 	for _, l := range c.Lat {
@@ -157,6 +311,7 @@ type c16Op struct {
 	call, ret int64 // logical clock; 0: not called / never returned
 	tcall     time.Duration
 	tret      time.Duration
+	panicked  bool // the call ended with a panic of the user's callback
 }
 
 type c16Batch struct {
@@ -178,6 +333,8 @@ type c16State struct {
 	dead     bool            // case over: later callbacks are only counted
 	late     int
 	liveFail string
+	reops    []*c16Op // adds made from inside callbacks
+	shared   *c16SharedOpts
 }
 
 func (s *c16State) tick() int64 { s.clock++; return s.clock }
@@ -198,10 +355,11 @@ type c16Container struct {
 	tasks []int
 	max   int
 	exec  func(ids []int)
+	dec   func(any) int
 }
 
 func (c *c16Container) AddTask(task any) bool {
-	c.tasks = append(c.tasks, task.(int))
+	c.tasks = append(c.tasks, c.dec(task))
 	return c.max > 0 && len(c.tasks) >= c.max
 }
 func (c *c16Container) Execute(tasks any) { c.exec(tasks.([]int)) }
@@ -276,11 +434,11 @@ type c16Subject struct {
 	wait  func()
 }
 
-func c16New(c c16Case, exec func(ids []int)) c16Subject {
+func c16New(c c16Case, exec func(ids []int), shared *c16SharedOpts) c16Subject {
 	anyExec := func(tasks []any) {
 		ids := make([]int, len(tasks))
 		for i, t := range tasks {
-			ids[i] = t.(int)
+			ids[i] = c.decode(t)
 		}
 		exec(ids)
 	}
@@ -288,26 +446,54 @@ func c16New(c c16Case, exec func(ids []int)) c16Subject {
 	case "bulk":
 		var opts []executors.BulkOption
 		if !c.NoMax {
+			if c.DupOpt {
+				opts = append(opts, executors.WithBulkTasks(c.Max+7))
+			}
 			opts = append(opts, executors.WithBulkTasks(c.Max))
 		}
 		if !c.NoIv {
+			if c.DupOpt {
+				opts = append(opts, executors.WithBulkInterval(3*c.unit()))
+			}
 			opts = append(opts, executors.WithBulkInterval(c.interval()))
 		}
+		if shared != nil {
+			shared.mu.Lock()
+			if shared.bulk == nil {
+				shared.bulk = opts
+			}
+			opts = shared.bulk
+			shared.mu.Unlock()
+		}
 		be := executors.NewBulkExecutor(anyExec, opts...)
-		return c16Subject{add: func(id, _ int) { _ = be.Add(id) }, flush: be.Flush, wait: be.Wait}
+		return c16Subject{add: func(id, _ int) { _ = be.Add(c.encode(id)) }, flush: be.Flush, wait: be.Wait}
 	case "chunk":
 		var opts []executors.ChunkOption
 		if !c.NoMax {
+			if c.DupOpt {
+				opts = append(opts, executors.WithChunkBytes(c.Max+7))
+			}
 			opts = append(opts, executors.WithChunkBytes(c.Max))
 		}
 		if !c.NoIv {
+			if c.DupOpt {
+				opts = append(opts, executors.WithFlushInterval(3*c.unit()))
+			}
 			opts = append(opts, executors.WithFlushInterval(c.interval()))
 		}
+		if shared != nil {
+			shared.mu.Lock()
+			if shared.chunk == nil {
+				shared.chunk = opts
+			}
+			opts = shared.chunk
+			shared.mu.Unlock()
+		}
 		ce := executors.NewChunkExecutor(anyExec, opts...)
-		return c16Subject{add: func(id, size int) { _ = ce.Add(id, size) }, flush: ce.Flush, wait: ce.Wait}
+		return c16Subject{add: func(id, size int) { _ = ce.Add(c.encode(id), size) }, flush: ce.Flush, wait: ce.Wait}
 	default:
-		pe := executors.NewPeriodicalExecutor(c.interval(), &c16Container{max: c.Max, exec: exec})
-		return c16Subject{add: func(id, _ int) { pe.Add(id) }, flush: func() { pe.Flush() }, wait: pe.Wait}
+		pe := executors.NewPeriodicalExecutor(c.interval(), &c16Container{max: c.Max, exec: exec, dec: c.decode})
+		return c16Subject{add: func(id, _ int) { pe.Add(c.encode(id)) }, flush: func() { pe.Flush() }, wait: pe.Wait}
 	}
 }
 
@@ -324,6 +510,9 @@ func c16Run(c c16Case, s *c16State, par bool) (fail string) {
 	s.t0 = time.Now()
 	s.harness = map[uint64]bool{c16Goid(): true}
 	now := func() time.Duration { return time.Since(s.t0) }
+	var sub c16Subject
+	reenter := c.canReenter()
+	reNext := len(c.Ev) // ids of tasks added from inside callbacks
 	exec := func(ids []int) {
 		h := c16Goid()
 		s.mu.Lock()
@@ -348,11 +537,37 @@ func c16Run(c c16Case, s *c16State, par bool) (fail string) {
 				}
 			}
 		}
+		if reenter {
+			for _, r := range c.Re {
+				if r == k {
+					s.mu.Lock()
+					op := &c16Op{ev: reNext, kind: "add", g: -3}
+					reNext++
+					s.reops = append(s.reops, op)
+					op.call, op.tcall = s.tick(), now()
+					s.mu.Unlock()
+					sub.add(op.ev, 0)
+					s.mu.Lock()
+					op.ret, op.tret = s.tick(), now()
+					s.mu.Unlock()
+				}
+			}
+		}
 		s.mu.Lock()
 		b.end, b.tend = s.tick(), now()
 		s.mu.Unlock()
+		if c.PanicAt-1 == k && b.harness {
+			switch c.PanicKind {
+			case 0:
+				panic(fmt.Errorf("c16 callback panic (error) in batch %v", b.ids))
+			case 1:
+				panic("c16 callback panic (string)")
+			default:
+				panic(16)
+			}
+		}
 	}
-	sub := c16New(c, exec)
+	sub = c16New(c, exec, s.shared)
 	gate := newC16Gate(!par)
 
 	s.ops = make([]c16Op, len(c.Ev), len(c.Ev)+1)
@@ -371,14 +586,23 @@ func c16Run(c c16Case, s *c16State, par bool) (fail string) {
 		s.mu.Lock()
 		op.call, op.tcall = s.tick(), now()
 		s.mu.Unlock()
-		switch op.kind {
-		case "add":
-			sub.add(op.ev, size)
-		case "flush":
-			sub.flush()
-		case "wait":
-			sub.wait()
-		}
+		func() {
+			if c.PanicAt > 0 {
+				defer func() {
+					if r := recover(); r != nil {
+						op.panicked = true
+					}
+				}()
+			}
+			switch op.kind {
+			case "add":
+				sub.add(op.ev, size)
+			case "flush":
+				sub.flush()
+			case "wait":
+				sub.wait()
+			}
+		}()
 		s.mu.Lock()
 		op.ret, op.tret = s.tick(), now()
 		s.mu.Unlock()
@@ -435,13 +659,18 @@ func c16Run(c c16Case, s *c16State, par bool) (fail string) {
 		go func() { wg.Wait(); close(done) }()
 		// every operation returns within a bounded virtual time: the schedule, plus the
 		// largest latency for every callback that can delay every operation, plus slack.
-		horizon = acc + time.Duration((len(c.Ev)+2)*(len(c.Ev)+2)*maxLat)*U + 100*I
+		// (every delay is a callback running, and each callback sleeps at most maxLat once)
+		slack := 100 * I
+		if c.never() {
+			slack = 100 * time.Second
+		}
+		horizon = acc + time.Duration((len(c.Ev)+len(c.Re)+2)*maxLat)*U + slack
 		select {
 		case <-done:
 		case <-time.After(horizon):
 			return fmt.Sprintf("operations did not return within the virtual horizon %v: %s", horizon, stuck())
 		}
-		if c.Q {
+		if c.Q && !c.never() && !reenter {
 			// tick trigger: all operations have returned, so nothing is being handed over; the
 			// flusher finishes its current callback, skips at most one tick (after a commanded
 			// batch) and flushes the container at the next one.
@@ -538,21 +767,24 @@ func c16Run(c c16Case, s *c16State, par bool) (fail string) {
 // or ended meanwhile (only possible after a Wait violation), so that the leak
 // verdict at bubble exit always follows c16IdleRounds really idle intervals.
 func c16Settle(c c16Case, s *c16State) {
-	snap := func() (n int) {
+	snap := func() (n int, running bool) {
 		s.mu.Lock()
 		defer s.mu.Unlock()
 		for _, b := range s.batches {
 			n++
 			if b.end != 0 {
 				n++
+			} else {
+				running = true
 			}
 		}
 		return
 	}
-	for i, n := 0, snap(); i < len(c.Ev)+2; i++ {
-		time.Sleep(c16IdleRounds*c.interval() + c.unit())
-		m := snap()
-		if m == n {
+	n, _ := snap()
+	for i := 0; i < len(c.Ev)+len(c.Re)+4; i++ {
+		time.Sleep(c.idle())
+		m, running := snap()
+		if m == n && !running {
 			return
 		}
 		n = m
@@ -570,15 +802,15 @@ type c16Result struct {
 func (c c16Case) atThreshold(ids []int) bool {
 	switch c.Kind {
 	case "bulk":
-		return len(ids) == c.Max
+		return len(ids) >= c.Max
 	case "chunk":
 		sum := 0
 		for _, id := range ids {
-			sum += c.Ev[id].S
+			sum += c.size(id)
 		}
 		return sum >= c.Max
 	default:
-		return c.Max > 0 && len(ids) == c.Max
+		return c.Max > 0 && len(ids) >= c.Max
 	}
 }
 
@@ -591,13 +823,27 @@ func c16Check(c c16Case, s *c16State, res *c16Result, par bool) {
 			res.fail, res.known = fmt.Sprintf(format, a...), ""
 		}
 	}
+	if len(s.reops) > 0 { // adds made from inside callbacks join the history
+		ops := append([]c16Op(nil), s.ops...)
+		for _, o := range s.reops {
+			ops = append(ops, *o)
+		}
+		s.ops, s.reops = ops, nil
+		cl["reentrant-add"] = true
+	}
 	added := map[int]*c16Op{}
+	var byCall []*c16Op // adds ordered by the logical instant of their call
 	for i := range s.ops {
 		o := &s.ops[i]
 		if o.kind == "add" && o.call != 0 {
 			added[o.ev] = o
+			byCall = append(byCall, o)
+		}
+		if o.panicked {
+			cl["callback-panic"] = true
 		}
 	}
+	sort.Slice(byCall, func(i, j int) bool { return byCall[i].call < byCall[j].call })
 	// 1. exactly once
 	where := map[int]*c16Batch{}
 	for bi, b := range s.batches {
@@ -653,27 +899,37 @@ func c16Check(c c16Case, s *c16State, res *c16Result, par bool) {
 			}
 		}
 		if xid >= 0 && zid >= 0 {
-			for y, oy := range added {
+			lo := sort.Search(len(byCall), func(i int) bool { return byCall[i].call > xr })
+			for _, oy := range byCall[lo:] {
+				if oy.call >= zc {
+					break
+				}
+				y := oy.ev
 				if where[y] == b || oy.ret == 0 {
 					continue
 				}
-				if xr < oy.call && oy.ret < zc {
+				if oy.ret < zc {
 					failf("batch %d %v holds tasks %d and %d but not task %d, which was added strictly between them (it is in %v)%s", bi, b.ids, xid, zid, y, where[y].ids, c16History(s))
 				}
 			}
 		}
 		switch c.Kind {
 		case "bulk":
-			if len(b.ids) > c.Max {
+			if c.Max <= 0 {
+				cl["size-limit<=0 (bound unspecified)"] = true
+			} else if len(b.ids) > c.Max {
 				failf("bulk batch %d %v has %d tasks > maxTasks %d", bi, b.ids, len(b.ids), c.Max)
 			}
 		case "chunk":
-			sum := 0
+			sum, neg := 0, false
 			for _, id := range b.ids {
-				sum += c.Ev[id].S
+				sum += c.size(id)
+				neg = neg || c.size(id) < 0
 			}
-			if n := len(b.ids); n > 0 {
-				last := c.Ev[b.ids[n-1]].S
+			if c.Max <= 0 || neg {
+				cl["size-limit<=0 or negative size (bound unspecified)"] = true
+			} else if n := len(b.ids); n > 0 {
+				last := c.size(b.ids[n-1])
 				if sum-last >= c.Max {
 					failf("chunk batch %d %v has %d bytes, limit %d, last task %d bytes: exceeds the limit by %d >= last task", bi, b.ids, sum, c.Max, last, sum-c.Max)
 				}
@@ -702,7 +958,7 @@ func c16Check(c c16Case, s *c16State, res *c16Result, par bool) {
 	// 5. Wait returns only after every task added before it has finished executing
 	for i := range s.ops {
 		w := &s.ops[i]
-		if w.kind != "wait" || w.call == 0 || w.ret == 0 {
+		if w.kind != "wait" || w.call == 0 || w.ret == 0 || w.panicked {
 			continue
 		}
 		if w.tret > w.tcall {
@@ -759,7 +1015,7 @@ func c16Check(c c16Case, s *c16State, res *c16Result, par bool) {
 		acts = append(acts, act{b.tstart, false, -2}, act{b.tend, false, -2})
 		// 6. triggers: a batch below the threshold that the background flusher executes can only be
 		// a tick flush, and the first tick of a flusher comes one interval after the Add that started it
-		if !b.harness && len(b.ids) > 0 && !c.atThreshold(b.ids) && firstAdd >= 0 && b.tstart < firstAdd+I {
+		if !b.harness && len(b.ids) > 0 && !c.atThreshold(b.ids) && firstAdd >= 0 && b.tstart-firstAdd < I {
 			failf("batch %d %v (below the threshold %d) was executed by the background flusher at %v, less than one interval (%v) after the first Add (%v): neither the threshold nor a tick nor Flush/Wait triggered it%s",
 				bi, b.ids, c.Max, b.tstart, I, firstAdd, c16History(s))
 		}
@@ -767,16 +1023,18 @@ func c16Check(c c16Case, s *c16State, res *c16Result, par bool) {
 	sort.SliceStable(acts, func(i, j int) bool { return acts[i].t < acts[j].t })
 	tickBase := firstAdd // instant at which the current flusher (and its ticker) started
 	restart := false
+	restarts := 0
 	sameTick := map[time.Duration]map[int]bool{}
 	seenAdd := false
 	for i, a := range acts {
 		if a.add {
-			if seenAdd && i > 0 && a.t-acts[i-1].t > 11*I {
+			if seenAdd && i > 0 && !c.never() && a.t-acts[i-1].t > 11*I {
 				restart = true
+				restarts++
 				tickBase = a.t
 			}
 			seenAdd = true
-			if d := a.t - tickBase; d > 0 && d%I == 0 {
+			if d := a.t - tickBase; d > 0 && !c.never() && d%I == 0 {
 				if sameTick[a.t] == nil {
 					sameTick[a.t] = map[int]bool{}
 				}
@@ -797,6 +1055,46 @@ func c16Check(c c16Case, s *c16State, res *c16Result, par bool) {
 	}
 	if c.Q {
 		cl["tick-only-quiesce"] = true
+	}
+	// magnitude / scale classes (sweep): what the generator really produced
+	switch {
+	case restarts >= 256:
+		cl["256+flusher-restarts-on-one-instance"] = true
+	case restarts >= 16:
+		cl["16+flusher-restarts-on-one-instance"] = true
+	}
+	switch n := len(added); {
+	case n >= 10000:
+		cl["10000+tasks-on-one-instance"] = true
+	case n >= 1000:
+		cl["1000+tasks-on-one-instance"] = true
+	}
+	switch {
+	case c.never():
+		cl["interval:never-ticks(100y|MaxInt64)"] = true
+	case I >= time.Hour:
+		cl["interval:1h..30d"] = true
+	case I < time.Microsecond:
+		cl["interval:1ns"] = true
+	case I < time.Millisecond:
+		cl["interval:<1ms"] = true
+	}
+	if c.Kind != "periodical" {
+		switch m := c.Max; {
+		case m <= 0:
+		case m >= 1<<31:
+			cl["size-limit:>=2^31"] = true
+		case m >= 65535:
+			cl["size-limit:64Ki..1Mi"] = true
+		case m >= 127:
+			cl["size-limit:127..4097"] = true
+		}
+	}
+	if c.Poly {
+		cl["poly-task-values"] = true
+		if c.NilAt > 0 && added[c.NilAt-1] != nil {
+			cl["nil-task"] = true
+		}
 	}
 }
 
@@ -918,7 +1216,7 @@ func c16Interp(t *testing.T, c c16Case) (v kit.Verdict) {
 	var br kit.BubbleResult
 	select {
 	case br = <-bubbleDone:
-	case <-time.After(c16Watchdog):
+	case <-time.After(c16Watchdog + time.Duration(len(c.Ev))*2*time.Millisecond): // big cases: 2 ms of real time per event on top
 		// a goroutine is blocked on a mutex for ever (not a durable block, so synctest
 		// cannot report it) or the bubble spins through virtual time
 		c16Watchdog = 2 * time.Second // shrinking: do not wait as long again
@@ -930,6 +1228,8 @@ func c16Interp(t *testing.T, c c16Case) (v kit.Verdict) {
 		switch {
 		case br.Hang:
 			v.Fail, v.Known = "hang: every goroutine of the bubble is blocked for ever: "+br.Raw, ""
+		case br.Leak && c.never():
+			// expected residue: the flusher needs more than 10 intervals of 100 years to retire
 		case br.Leak:
 			v.Fail, v.Known = fmt.Sprintf("leak: %d idle intervals after the final Wait a goroutine (the background flusher) is still alive at bubble exit", c16IdleRounds), ""
 		case br.Panic != "":
@@ -1031,12 +1331,62 @@ func c16GenKind(rt *rapid.T, c *c16Case) {
 	}
 }
 
+// interval magnitudes beyond c16Intervals, in ns
+var c16IntervalsNs = []int64{1, int64(time.Minute), int64(time.Hour), int64(30 * 24 * time.Hour),
+	int64(100 * 365 * 24 * time.Hour), math.MaxInt64}
+
+var (
+	c16BulkMags  = []int{0, -1, 127, 128, 255, 256, 257, 1000, 4096, 65536, math.MaxInt32, math.MaxInt64}
+	c16ChunkMags = []int{0, -1, 255, 256, 4095, 4096, 4097, 65535, 65536, 65537, 1<<20 - 1, 1 << 20, 1<<20 + 1, 1 << 31, math.MaxInt64}
+)
+
+// c16GenSize: a task size relative to the byte limit (no overflow: <= 2^31 per task).
+func c16GenSize(rt *rapid.T, limit int) int {
+	if limit <= 64 {
+		return rapid.IntRange(0, 50).Draw(rt, "size")
+	}
+	l := limit
+	if l > 1<<31 {
+		l = 1 << 31
+	}
+	return rapid.SampledFrom([]int{0, 1, l / 3, l / 2, l - 1, l, l - 1, l / 2, 50}).Draw(rt, "size") +
+		rapid.SampledFrom([]int{0, 0, 1}).Draw(rt, "size+")
+}
+
 func c16Gen(rt *rapid.T) c16Case {
 	c := c16Case{}
 	c16GenKind(rt, &c)
 	c.IvUs = rapid.SampledFrom(c16Intervals).Draw(rt, "ivus")
+	if rapid.IntRange(0, 5).Draw(rt, "ivmag") == 0 {
+		c.IvNs = rapid.SampledFrom(c16IntervalsNs).Draw(rt, "ivns")
+	}
+	long := c.interval() >= time.Hour // keep the virtual time of a case below some decades
+	mag := rapid.IntRange(0, 4).Draw(rt, "mag") == 0
+	if mag {
+		switch c.Kind {
+		case "bulk":
+			c.Max = rapid.SampledFrom(c16BulkMags).Draw(rt, "maxmag")
+		case "chunk":
+			c.Max = rapid.SampledFrom(c16ChunkMags).Draw(rt, "limitmag")
+		}
+	}
+	// re-entrant adds need a configuration that cannot reach a threshold
+	re := !long && rapid.IntRange(0, 7).Draw(rt, "re") == 0
+	if re {
+		if rapid.Bool().Draw(rt, "rekind") {
+			c.Kind, c.Max = "periodical", 0
+		} else {
+			c.Kind, c.Max = "bulk", 1000
+		}
+	}
 	ng := rapid.IntRange(1, 4).Draw(rt, "ng")
 	n := rapid.IntRange(1, 24).Draw(rt, "nev")
+	negSizes := c.Kind == "chunk" && rapid.IntRange(0, 39).Draw(rt, "neg") == 0
+	burst := -1
+	if c.Kind == "bulk" && !long && !re && c.Max >= 100 && c.Max <= 65536 &&
+		(c.Max < 65536 || rapid.IntRange(0, 7).Draw(rt, "hugeburst") == 0) && rapid.IntRange(0, 2).Draw(rt, "burst") > 0 {
+		burst = rapid.IntRange(0, n-1).Draw(rt, "burstAt")
+	}
 	for i := 0; i < n; i++ {
 		e := c16Ev{G: rapid.IntRange(0, ng-1).Draw(rt, "g")}
 		e.K = rapid.SampledFrom([]string{"add", "add", "add", "add", "add", "add", "flush", "wait"}).Draw(rt, "k")
@@ -1058,17 +1408,110 @@ func c16Gen(rt *rapid.T) c16Case {
 		if i == 0 {
 			e.Gap = rapid.IntRange(0, 2).Draw(rt, "gap0")
 		}
+		if i == burst {
+			e.K = "add"
+			e.Rep = c.Max + rapid.SampledFrom([]int{-1, 0, 1, 2, c.Max, c.Max + 1}).Draw(rt, "rep")
+		}
 		if e.K == "add" && c.Kind == "chunk" {
-			e.S = rapid.IntRange(0, 50).Draw(rt, "size")
+			e.S = c16GenSize(rt, c.Max)
+			if negSizes && rapid.IntRange(0, 3).Draw(rt, "negs") == 0 {
+				e.S = -rapid.IntRange(1, 50).Draw(rt, "negsize")
+			}
 		}
 		e.Y = rapid.SampledFrom([]int{0, 0, 0, 1, 2, 3}).Draw(rt, "y")
 		c.Ev = append(c.Ev, e)
 	}
 	nl := rapid.IntRange(0, 4).Draw(rt, "nlat")
 	for i := 0; i < nl; i++ {
-		c.Lat = append(c.Lat, rapid.SampledFrom([]int{0, 0, 1, 2, 3, 5, 8, 25}).Draw(rt, "lat"))
+		if long {
+			c.Lat = append(c.Lat, rapid.SampledFrom([]int{0, 0, 1, 3}).Draw(rt, "lat"))
+		} else {
+			c.Lat = append(c.Lat, rapid.SampledFrom([]int{0, 0, 1, 2, 3, 5, 8, 25}).Draw(rt, "lat"))
+		}
 	}
 	c.Q = rapid.IntRange(0, 2).Draw(rt, "q") == 0
+	if re {
+		nre := rapid.IntRange(1, 4).Draw(rt, "nre")
+		for i := 0; i < nre; i++ {
+			c.Re = append(c.Re, rapid.IntRange(0, 8).Draw(rt, "reAt"))
+		}
+	}
+	if rapid.IntRange(0, 3).Draw(rt, "poly") == 0 {
+		c.Poly = true
+		if rapid.Bool().Draw(rt, "nil") {
+			// expanded index of a randomly chosen add
+			var idx []int
+			x := 0
+			for _, e := range c.Ev {
+				if e.K == "add" {
+					idx = append(idx, x)
+				}
+				if e.K == "add" && e.Rep > 1 {
+					x += e.Rep
+				} else {
+					x++
+				}
+			}
+			if len(idx) > 0 {
+				c.NilAt = 1 + rapid.SampledFrom(idx).Draw(rt, "nilAt")
+				c.NilTyped = rapid.Bool().Draw(rt, "nilTyped")
+			}
+		}
+	}
+	if rapid.IntRange(0, 5).Draw(rt, "panic") == 0 {
+		c.PanicAt = rapid.IntRange(1, 6).Draw(rt, "panicAt")
+		c.PanicKind = rapid.IntRange(0, 2).Draw(rt, "pkind")
+	}
+	return c
+}
+
+// c16GenLong: one executor living through 10^3..10^5 cheap operations: a short template of
+// bursts, flushes, waits and gaps (some of them beyond the idle quit, so the flusher is
+// restarted hundreds of times) repeated Loop times.
+func c16GenLong(rt *rapid.T) c16Case {
+	c := c16Case{}
+	c16GenKind(rt, &c)
+	if c.Kind != "periodical" && rapid.IntRange(0, 2).Draw(rt, "bigmax") == 0 {
+		c.Max = rapid.SampledFrom([]int{64, 256, 1000}).Draw(rt, "max")
+	}
+	c.IvUs = rapid.SampledFrom([]int{1, 250, 999, 10_000, 1_000_000}).Draw(rt, "ivus")
+	ng := rapid.IntRange(1, 3).Draw(rt, "ng")
+	n := rapid.IntRange(2, 8).Draw(rt, "nev")
+	per := 0
+	restartGap := rapid.IntRange(0, 2).Draw(rt, "restarts") > 0 // template contains an idle gap beyond the quit
+	for i := 0; i < n; i++ {
+		e := c16Ev{G: rapid.IntRange(0, ng-1).Draw(rt, "g")}
+		e.K = rapid.SampledFrom([]string{"add", "add", "add", "add", "flush", "wait"}).Draw(rt, "k")
+		e.Gap = rapid.SampledFrom([]int{0, 0, 0, 1, 2, 3}).Draw(rt, "gap")
+		if i == 0 && restartGap {
+			e.Gap = rapid.IntRange(23, 26).Draw(rt, "idlegap")
+		}
+		if e.K == "add" {
+			e.Rep = rapid.SampledFrom([]int{1, 1, 2, 5, 17, 100}).Draw(rt, "rep")
+			per += e.Rep
+			if c.Kind == "chunk" {
+				e.S = rapid.IntRange(0, 50).Draw(rt, "size")
+			}
+		}
+		c.Ev = append(c.Ev, e)
+	}
+	if per == 0 {
+		c.Ev[n-1].K, c.Ev[n-1].Rep = "add", 3
+		per = 3
+	}
+	maxLoop := 15000 / per
+	if maxLoop > 400 {
+		maxLoop = 400
+	}
+	if maxLoop < 20 {
+		maxLoop = 20
+	}
+	c.Loop = rapid.IntRange(maxLoop/2, maxLoop).Draw(rt, "loop")
+	if rapid.IntRange(0, 3).Draw(rt, "lat") == 0 {
+		c.Lat = []int{0, 0, 0, 1}
+	}
+	c.Q = rapid.Bool().Draw(rt, "q")
+	c.Poly = rapid.IntRange(0, 3).Draw(rt, "poly") == 0
 	return c
 }
 
@@ -1222,6 +1665,12 @@ func c16Enumerate(maxAdds int, maxes []int, lats [][]int, ivus []int) func(yield
 // configuration, an omitted option meaning the documented default.
 type c16SeqCase struct {
 	Ex []c16Case `json:"ex"`
+	// Conc: the executors are alive and used at the same time (each timeline runs in parallel in
+	// the same bubble) instead of one after the other.
+	Conc bool `json:"conc,omitempty"`
+	// ShareOpts: executors of the same kind are constructed from the SAME option slice (the one
+	// of the first executor of that kind) and are judged by that configuration.
+	ShareOpts bool `json:"share,omitempty"`
 }
 
 func c16GenSeqOne(rt *rapid.T) c16Case {
@@ -1240,11 +1689,14 @@ func c16GenSeqOne(rt *rapid.T) c16Case {
 		c.Max = rapid.IntRange(0, 3).Draw(rt, "max")
 	}
 	c.IvUs = rapid.SampledFrom(c16Intervals).Draw(rt, "ivus")
+	if rapid.IntRange(0, 7).Draw(rt, "ivmag") == 0 {
+		c.IvNs = rapid.SampledFrom(c16IntervalsNs).Draw(rt, "ivns")
+	}
 	eff := c.effective()
 	ng := rapid.IntRange(1, 3).Draw(rt, "ng")
 	n := rapid.IntRange(1, 10).Draw(rt, "nev")
 	burst := -1 // one burst of adds that reaches a large threshold
-	if c.Kind == "bulk" && eff.Max >= 1000 && eff.Max <= 1500 && rapid.IntRange(0, 2).Draw(rt, "burst") > 0 {
+	if c.Kind == "bulk" && eff.interval() < time.Hour && eff.Max >= 1000 && eff.Max <= 1500 && rapid.IntRange(0, 2).Draw(rt, "burst") > 0 {
 		burst = rapid.IntRange(0, n-1).Draw(rt, "burstAt")
 	}
 	for i := 0; i < n; i++ {
@@ -1284,8 +1736,12 @@ func c16GenSeqOne(rt *rapid.T) c16Case {
 func c16GenSeq(rt *rapid.T) c16SeqCase {
 	n := rapid.IntRange(1, 3).Draw(rt, "nex")
 	sc := c16SeqCase{}
+	sc.Conc = rapid.IntRange(0, 2).Draw(rt, "conc") == 0
+	sc.ShareOpts = rapid.IntRange(0, 3).Draw(rt, "share") == 0
 	for i := 0; i < n; i++ {
-		sc.Ex = append(sc.Ex, c16GenSeqOne(rt))
+		c := c16GenSeqOne(rt)
+		c.DupOpt = rapid.IntRange(0, 3).Draw(rt, "dupopt") == 0
+		sc.Ex = append(sc.Ex, c)
 	}
 	return sc
 }
@@ -1293,7 +1749,7 @@ func c16GenSeq(rt *rapid.T) c16SeqCase {
 func c16InterpSeq(t *testing.T, sc c16SeqCase) (v kit.Verdict) {
 	classes := map[string]bool{}
 	var fail, known string
-	nontrivial := false
+	nontrivial, anyNever := false, false
 	var states []*c16State
 	bubbleDone := make(chan kit.BubbleResult, 1)
 	go func() {
@@ -1319,8 +1775,32 @@ func c16InterpSeq(t *testing.T, sc c16SeqCase) (v kit.Verdict) {
 			executors.NewBulkExecutor(func([]any) {}, executors.WithBulkTasks(c16DefaultBulkTasks), executors.WithBulkInterval(c16DefaultIvMs*time.Millisecond))
 			executors.NewChunkExecutor(func([]any) {}, executors.WithChunkBytes(c16DefaultChunkBytes), executors.WithFlushInterval(c16DefaultIvMs*time.Millisecond))
 			explicitMax, explicitIv := map[string]bool{}, map[string]bool{}
+			shared := &c16SharedOpts{}
+			firstOf := map[string]c16Case{}
+			type one struct {
+				c    c16Case
+				s    *c16State
+				what string
+				fail string
+			}
+			var runs []*one
 			for i, spec := range sc.Ex {
+				if sc.ShareOpts && spec.Kind != "periodical" {
+					if f, ok := firstOf[spec.Kind]; ok { // same option slice => same configuration
+						spec.Max, spec.IvMs, spec.IvUs, spec.IvNs, spec.NoMax, spec.NoIv, spec.DupOpt = f.Max, f.IvMs, f.IvUs, f.IvNs, f.NoMax, f.NoIv, f.DupOpt
+						classes["option-slice-reused"] = true
+						nontrivial = true
+					} else {
+						firstOf[spec.Kind] = spec
+					}
+				}
 				c := spec.effective()
+				if c.never() {
+					anyNever = true
+				}
+				if c.DupOpt && c.Kind != "periodical" && !(c.NoMax && c.NoIv) {
+					classes["option-passed-twice"] = true
+				}
 				if c.Kind != "periodical" {
 					if c.NoMax {
 						classes["default-size"] = true
@@ -1342,25 +1822,55 @@ func c16InterpSeq(t *testing.T, sc c16SeqCase) (v kit.Verdict) {
 					}
 				}
 				s := &c16State{}
+				if sc.ShareOpts {
+					s.shared = shared
+				}
 				states = append(states, s)
-				res := &c16Result{classes: map[string]bool{c.Kind: true}}
-				what := fmt.Sprintf("executor #%d (%s, size option passed=%v -> %d, interval option passed=%v -> %v): ", i, c.Kind, !c.NoMax && c.Kind != "periodical", c.Max, !c.NoIv || c.Kind == "periodical", c.interval())
-				if f := c16Run(c, s, false); f != "" {
-					fail = what + f
+				runs = append(runs, &one{c: c, s: s,
+					what: fmt.Sprintf("executor #%d (%s, size option passed=%v -> %d, interval option passed=%v -> %v): ", i, c.Kind, !c.NoMax && c.Kind != "periodical", c.Max, !c.NoIv || c.Kind == "periodical", c.interval())})
+			}
+			runOne := func(r *one) {
+				if r.fail = c16Run(r.c, r.s, false); r.fail == "" {
+					c16Settle(r.c, r.s)
+				}
+			}
+			if sc.Conc && len(runs) > 1 {
+				classes["executors-alive-concurrently"] = true
+				var wg sync.WaitGroup
+				for _, r := range runs {
+					wg.Add(1)
+					r := r
+					go func() { defer wg.Done(); runOne(r) }()
+				}
+				wg.Wait()
+			} else {
+				for _, r := range runs {
+					if runOne(r); r.fail != "" {
+						break
+					}
+				}
+			}
+			for _, r := range runs {
+				if r.fail != "" {
+					fail = r.what + r.fail
 					return
 				}
-				c16Settle(c, s)
-				s.mu.Lock()
-				c16Check(c, s, res, false)
-				s.mu.Unlock()
+			}
+			for _, r := range runs {
+				res := &c16Result{classes: map[string]bool{r.c.Kind: true}}
+				r.s.mu.Lock()
+				if len(r.s.ops) > 0 {
+					c16Check(r.c, r.s, res, false)
+				}
+				r.s.mu.Unlock()
 				for k := range res.classes {
 					classes[k] = true
 				}
-				if c.NoMax && res.classes["batch-at-threshold"] {
+				if r.c.NoMax && res.classes["batch-at-threshold"] {
 					classes["default-threshold-reached"] = true
 				}
 				if res.fail != "" {
-					fail, known = what+res.fail, res.known
+					fail, known = r.what+res.fail, res.known
 					return
 				}
 			}
@@ -1386,6 +1896,8 @@ func c16InterpSeq(t *testing.T, sc c16SeqCase) (v kit.Verdict) {
 		switch {
 		case br.Hang:
 			v.Fail, v.Known = "hang: every goroutine of the bubble is blocked for ever: "+br.Raw, ""
+		case br.Leak && anyNever:
+			// expected residue: a flusher with a 100-year interval cannot retire within the case
 		case br.Leak:
 			v.Fail, v.Known = fmt.Sprintf("leak: %d idle intervals after the last executor's final Wait a goroutine (a background flusher) is still alive at bubble exit", c16IdleRounds), ""
 		case br.Panic != "":
@@ -1447,4 +1959,10 @@ func TestVerif_C16_sequence(t *testing.T) {
 	defer runtime.GOMAXPROCS(runtime.GOMAXPROCS(1))
 	kit.Run(t, "C16", "exec-sequence", kit.Opts{Quick: 1500, Thorough: 48000}, c16GenSeq,
 		func(sc c16SeqCase) kit.Verdict { return c16InterpSeq(t, sc) })
+}
+
+func TestVerif_C16_longlived(t *testing.T) {
+	defer runtime.GOMAXPROCS(runtime.GOMAXPROCS(1))
+	kit.Run(t, "C16", "exec-long-lived", kit.Opts{Quick: 30, Thorough: 480}, c16GenLong,
+		c16Repeat(func(c c16Case) kit.Verdict { return c16Interp(t, c) }))
 }
